@@ -234,7 +234,7 @@ def make_base(spec, mixins=()):
 def fl(x):
     if x is None:
         return float("nan")
-    if isinstance(x, str):
+    if isinstance(x, str) and x.strip().lstrip("+-") in ("nan", "inf"):
         return float(x)
     return float(Fraction(x))
 
